@@ -17,7 +17,7 @@ from ..oracle import DIR_SUFFIX, H, audit_store, canonical_dir_oid, file_bytes, 
 
 RULE = (
     "run = N in {2,4,8} writers, each staging its own generated directory (70-90 % of the contents drawn from a shared pool, some "
-    "writers with an identical whole directory) and transferring it into ONE LocalHashFileDB path while sharing ONE hash-state "
+    "writers with an identical whole directory) and (threads: a third of the writers stage a second directory before transferring the first; one writer of an identical directory may lose a source file right after its status query and fail - the others must not suffer) transferring it into ONE LocalHashFileDB path while sharing ONE hash-state "
     "database; variants: threads in one process (shared State object, shared or per-thread store objects) and separate "
     "processes (own State on the same SQLite files, released together); scheduling perturbed by a seeded 0-2 ms sleep at every "
     "filesystem-operation boundary inside the store (audit hook), thorough additionally with a 10 us switch interval.  Afterwards "
@@ -33,7 +33,7 @@ ASSUMPTIONS = [
 MONITORS = ("per-writer manifests computed by the harness vs the shared store after the run; per-event log (monotonic ns, writer, kind, object) "
             "from the audit hook giving contended objects and interleaving signatures; State.get answers vs hashlib")
 REQUIRED_COUNTERS = ["runs", "thread_runs", "process_runs", "contended_objects", "writers_checked", "objects_audited", "state_rows_checked",
-                     "jitter_sleeps", "identical_directory_runs"]
+                     "jitter_sleeps", "identical_directory_runs", "second_directories_checked", "runs_with_a_failing_identical_writer"]
 
 
 def make_workspaces(rng, d, n):
@@ -55,7 +55,14 @@ def make_workspaces(rng, d, n):
                 files[("only",)] = rng.choice(pool)
         trees.append(files)
         gen.write_tree(os.path.join(d, f"ws{i}"), files)
-    return trees, ident
+    # some writers stage a second, different directory before transferring the first (stage-all-then-transfer batching)
+    seconds = {}
+    for i in range(n):
+        if rng.random() < 0.35:
+            files2 = {(f"second-{i}", f"f{j}"): (rng.choice(pool) if rng.random() < 0.6 else gen.small_content(rng) + bytes([i, j])) for j in range(rng.randrange(1, 5))}
+            seconds[i] = files2
+            gen.write_tree(os.path.join(d, f"ws{i}b"), files2)
+    return trees, ident, seconds
 
 
 def signature(events):
@@ -76,23 +83,27 @@ def run_shard(ctx):
     if ctx.tier == "thorough":
         sys.setswitchinterval(1e-5)
 
-    def audit(d, trees, results, case, cfg):
+    def audit(d, trees, results, case, cfg, faulty=None, seconds=None):
         croot = os.path.join(d, "cache")
         for i, r in enumerate(results):
             res.count("writers_checked")
             if r is None or r.get("error"):
                 res.violation(f"writer-raised/{cfg['mode']}", f"writer {i} raised: {(r or {}).get('error')}", case=case,
                               detail={**cfg, "traceback": (r or {}).get("traceback")})
-            elif r["failed"]:
+            elif r["failed"] and i != faulty:
                 res.violation(f"writer-reported-failed-objects/{cfg['mode']}", f"writer {i}: {len(r['failed'])} objects failed", case=case, detail=cfg)
         probs, objs, _nt = audit_store(croot, "md5")
         res.count("objects_audited", len(objs))
         for kind, oid, info in probs[:3]:
             res.violation(f"store-object-{kind}/{cfg['mode']}", f"{oid}: {info}", case=case, detail=cfg)
-        for i, files in enumerate(trees):
+        todo = [(i, files, "oid") for i, files in enumerate(trees)] + [(i, files, "oid2") for i, files in sorted((seconds or {}).items())]
+        for i, files, okey in todo:
             listing = {"/".join(k): H("md5", v) for k, v in files.items()}
             want = canonical_dir_oid(listing)
             r = results[i]
+            if okey == "oid2":
+                res.count("second_directories_checked")
+                r = {"oid": (r or {}).get("oid2")}
             if r and r.get("oid") and r["oid"] != want:
                 res.violation("writer-directory-id-differs-from-manifest", f"writer {i} staged {r['oid']}, its data is {want}", case=case, detail=cfg)
             if want not in objs:
@@ -131,7 +142,7 @@ def run_shard(ctx):
 
             d = ctx.fresh("t")
             n = rng.choice([2, 4, 4, 8])
-            trees, ident = make_workspaces(rng, d, n)
+            trees, ident, seconds = make_workspaces(rng, d, n)
             croot = os.path.join(d, "cache")
             state = env.mk_state(d, os.path.join(d, "tmp"))
             shared_odb = rng.random() < 0.5
@@ -158,12 +169,42 @@ def run_shard(ctx):
 
             barrier = threading.Barrier(n)
 
+            # one writer of an identical directory may lose a source file right after its status query (its own transfer then fails,
+            # legitimately); the other writers' results must not suffer
+            faulty = None
+            pairs = [j for j in range(1, n) if any(trees[j] == trees[i_] for i_ in range(j))]
+            if pairs and rng.random() < 0.5:
+                faulty = rng.choice(pairs)
+                res.count("runs_with_a_failing_identical_writer")
+            jobs_of = [rng.choice([1, 2]) for _ in range(n)]
+            hold = rng.choice([0.02, 0.1, 0.25])
+
             def writer(i):
                 try:
                     barrier.wait(timeout=30)
                     staging, _m, obj = build(odbs[i], os.path.join(d, f"ws{i}"), fs, "md5")
-                    r = transfer(staging, odbs[i], {obj.hash_info}, shallow=False, jobs=rng.choice([1, 2]))
-                    results[i] = {"oid": obj.hash_info.value, "failed": sorted(h.value for h in r.failed), "error": None}
+                    staging2 = obj2 = None
+                    if i in seconds:
+                        staging2, _m2, obj2 = build(odbs[i], os.path.join(d, f"ws{i}b"), fs, "md5")
+                    kw = {}
+                    if i == faulty:
+                        def lose(_status, i=i):
+                            k0 = sorted(trees[i])[0]
+                            try:
+                                os.unlink(os.path.join(d, f"ws{i}", *k0))
+                            except FileNotFoundError:
+                                pass
+                            time.sleep(hold)  # the others get on with it meanwhile
+
+                        kw["validate_status"] = lose
+                    r = transfer(staging, odbs[i], {obj.hash_info}, shallow=False, jobs=jobs_of[i], **kw)
+                    failed = sorted(h.value for h in r.failed)
+                    oid2 = None
+                    if staging2 is not None:
+                        r2 = transfer(staging2, odbs[i], {obj2.hash_info}, shallow=False, jobs=jobs_of[i])
+                        failed += sorted(h.value for h in r2.failed)
+                        oid2 = obj2.hash_info.value
+                    results[i] = {"oid": obj.hash_info.value, "oid2": oid2, "failed": failed, "error": None}
                 except BaseException as e:  # noqa: BLE001
                     results[i] = {"error": f"{type(e).__name__}: {e}", "traceback": traceback.format_exc()[-2500:], "failed": None, "oid": None}
 
@@ -193,14 +234,16 @@ def run_shard(ctx):
                    "identical_dirs": ident}
             res.sample(cfg)
             state.close()
-            audit(d, trees, results, case, cfg)
+            cfg["failing_identical_writer"] = faulty
+            cfg["writers_staging_two_directories"] = sorted(seconds)
+            audit(d, trees, results, case, cfg, faulty=faulty, seconds=seconds)
             env.reset_staging()
             ctx.drop(d)
 
         def procs(case=case, rng=rng):
             d = ctx.fresh("p")
             n = rng.choice([2, 4, 4, 8])
-            trees, ident = make_workspaces(rng, d, n)
+            trees, ident, seconds = make_workspaces(rng, d, n)
             os.makedirs(os.path.join(d, "cache"))
             os.makedirs(os.path.join(d, "tmp"))
             start_at = time.monotonic() + 1.2
